@@ -36,6 +36,9 @@ var selftestMain func() int
 func allScenarios() []Scenario {
 	var sc []Scenario
 	sc = append(sc, c12All("thorough")...)
+	for _, f := range layerScens {
+		sc = append(sc, f()...)
+	}
 	return sc
 }
 
@@ -121,6 +124,11 @@ func main() {
 		engine.IsolateStdio()
 		p := props[os.Args[2]]
 		tier := os.Args[3]
+		if tier == "quick" {
+			schedJobCap = 400000
+		} else {
+			schedJobCap = 20000000
+		}
 		defer engine.CleanScratch()
 		engine.WorkerLoop(func(job string) *engine.JobResult { return p.Exec(tier, job) })
 		engine.CleanScratch()
